@@ -20,8 +20,14 @@ def module_callees(model: Model, fi: FuncInfo, module: Optional[str] = None) -> 
     module = module or fi.module
     out: List[FuncInfo] = []
     for n in ast.walk(fi.node):
+        names: List[str] = []
         if isinstance(n, ast.Call) and isinstance(n.func, ast.Name):
-            q = model.resolve_name(fi.module, n.func.id)
+            names.append(n.func.id)
+        if isinstance(n, ast.Call):
+            # a module function handed to another callable (`self._read_and_advance(_read_asn1_boolean, ...)`) counts as called
+            names += [a.id for a in list(n.args) + [k.value for k in n.keywords] if isinstance(a, ast.Name)]
+        for nm in names:
+            q = model.resolve_name(fi.module, nm)
             if q in model.functions and model.functions[q].module == module and model.functions[q].cls is None and model.functions[q] not in out:
                 out.append(model.functions[q])
     return out
@@ -68,9 +74,12 @@ class Asn1Anchors:
         if not cands or len(cands) != 1:
             raise AnalysisError(f"validating helper not identified (candidates: {sorted(cands or [])})")
         self.validate = model.functions[cands.pop()]
-        # octet-number reader: the other module function the header routine calls
-        others = [f for f in module_callees(model, self.header)]
-        self.octet_number_reader = others[0] if len(others) == 1 else None
+        # the header routine with the private helpers it is split into; which of them produce the tag number and which
+        # the length is read off the ASN1Header(...) construction (dataflow), never off a name
+        self.header_family = reachable(model, self.header)
+        self.number_readers = self._producers("tag_number")
+        self.length_readers = self._producers("length")
+        self.octet_number_reader = self.number_readers[0] if len(self.number_readers) == 1 else None
         # writer side
         ex = wr.methods.get("__exit__")
         if ex is None:
@@ -79,8 +88,9 @@ class Asn1Anchors:
         if len(ps) != 1:
             raise AnalysisError("ASN1Writer.__exit__ does not call exactly one TLV packing routine")
         self.packer = ps[0]
-        others = [f for f in module_callees(model, self.packer)]
-        self.octet_number_writer = others[0] if len(others) == 1 else None
+        self.packer_family = reachable(model, self.packer)
+        self.number_writers = self._number_consumers()
+        self.octet_number_writer = self.number_writers[-1] if self.number_writers else None
         self.writer_helper: Dict[str, FuncInfo] = {}
         for name, fi in wr.methods.items():
             if name.startswith("write_"):
@@ -89,6 +99,69 @@ class Asn1Anchors:
                     self.writer_helper[name] = cs[0]
         if len(self.writer_helper) < 4:
             raise AnalysisError("fewer than 4 ASN1Writer.write_* methods delegate to a module-level helper")
+
+    def _producers(self, what: str) -> List[FuncInfo]:
+        """Module functions whose result flows into the `what` component of the ASN1Header built by the header routine."""
+        m = self.m
+        out: List[FuncInfo] = []
+
+        def defs_from_calls(fi: FuncInfo, name: str, depth: int = 0) -> None:
+            for n in walk_no_nested(fi.node):
+                if isinstance(n, ast.Assign) and isinstance(n.value, ast.Call) and isinstance(n.value.func, ast.Name):
+                    tgts = [x.id for t in n.targets for x in ast.walk(t) if isinstance(x, ast.Name)]
+                    if name in tgts:
+                        q = m.resolve_name(fi.module, n.value.func.id)
+                        f2 = m.functions.get(q) if q else None
+                        if f2 is not None and f2.module == ASN1 and f2.cls is None and f2 not in out:
+                            out.append(f2)
+                            if depth < 3:
+                                # a helper that merely forwards to another helper
+                                for r in walk_no_nested(f2.node):
+                                    if isinstance(r, ast.Return) and isinstance(r.value, ast.Call) and isinstance(r.value.func, ast.Name):
+                                        q3 = m.resolve_name(f2.module, r.value.func.id)
+                                        f3 = m.functions.get(q3) if q3 else None
+                                        if f3 is not None and f3.module == ASN1 and f3.cls is None and f3 not in out:
+                                            out.append(f3)
+        for n in walk_no_nested(self.header.node):
+            if isinstance(n, ast.Call) and m.resolve_name(ASN1, norm(n.func)) == f"{ASN1}.ASN1Header":
+                src = None
+                if what == "length":
+                    src = next((k.value for k in n.keywords if k.arg == "length"), n.args[2] if len(n.args) > 2 else None)
+                else:
+                    tag = next((k.value for k in n.keywords if k.arg == "tag"), n.args[0] if n.args else None)
+                    if isinstance(tag, ast.Call):
+                        src = next((k.value for k in tag.keywords if k.arg == "tag_number"), tag.args[1] if len(tag.args) > 1 else None)
+                if isinstance(src, ast.Name):
+                    defs_from_calls(self.header, src.id)
+        return out
+
+    def _number_consumers(self) -> List[FuncInfo]:
+        """Chain of module functions the tag-number parameter of the TLV packer is handed to (outermost first)."""
+        _, num_p = self.packer_params()
+        out: List[FuncInfo] = []
+        cur, name = self.packer, num_p
+        for _ in range(4):
+            if name is None:
+                break
+            nxt = None
+            for n in walk_no_nested(cur.node):
+                if isinstance(n, ast.Call) and isinstance(n.func, ast.Name):
+                    q = self.m.resolve_name(cur.module, n.func.id)
+                    f2 = self.m.functions.get(q) if q else None
+                    if f2 is None or f2.module != ASN1 or f2.cls is not None:
+                        continue
+                    ps = f2.params()
+                    for i, a in enumerate(n.args):
+                        if isinstance(a, ast.Name) and a.id == name and i < len(ps):
+                            nxt = (f2, ps[i])
+                    for k in n.keywords:
+                        if isinstance(k.value, ast.Name) and k.value.id == name and k.arg in ps:
+                            nxt = (f2, k.arg)
+            if nxt is None:
+                break
+            out.append(nxt[0])
+            cur, name = nxt
+        return out
 
     def packer_params(self):
         """(class param, number param) of the TLV packer, by annotation."""
